@@ -372,7 +372,15 @@ def rule_r6(ctx):
     rule_r4(ctx, rid="C04.R6")
 
 
-RULES = [rule_r1, rule_r2, rule_r3, rule_r4, rule_r5, rule_r6]
+def rule_r7(ctx):
+    """Shared with C17: no byte is duplicated or dropped inside the output buffers (representation invariant)."""
+    from . import c17
+    c17.rule_r1(ctx, rid="C04.R7")
+    c17.rule_r3(ctx, rid="C04.R7")
+    c17.rule_r4(ctx, rid="C04.R7")
+
+
+RULES = [rule_r1, rule_r2, rule_r3, rule_r4, rule_r5, rule_r6, rule_r7]
 
 from ..selftest import M, T, V  # noqa: E402
 
